@@ -57,6 +57,13 @@ class FakeContext:
 
     def request(self, msg):
         self.requests += 1
+        if self.shutdowns:
+            # like aiocoap: a context that was shut down serves nothing any more
+            from aiocoap.error import LibraryShutdown
+
+            fut = asyncio.get_running_loop().create_future()
+            fut.set_exception(LibraryShutdown())
+            return _Req(fut)
         return _Req(asyncio.ensure_future(self.handler(msg)))
 
     async def shutdown(self):
